@@ -205,4 +205,32 @@ def cacheWindow (f : File) (cubic : Bool) (south west north east : F64) : Window
       (iw + sh, ie + sh)
   .set iw inn (ie - iw + 1) (is - inn + 1)
 
+/-! ## inspector functions of the cache and `ConvertHeight` -/
+
+def rlonresF (f : File) : F64 := F64.ofInt f.w / F64.ofInt Gen.MathC.td
+def rlatresF (f : File) : F64 := F64.ofInt (f.h - 1) / F64.ofInt Gen.MathC.hd
+
+/-- `Geoid::CacheWest()`: `((_xoffset + (_xsize == _width ? 0 : _cubic) + _width/2) % _width - _width/2) / _rlonres` -/
+def cacheWest {C : Type} (f : File) (cubic : Bool) (s : St C) : F64 :=
+  if s.cache then
+    F64.ofInt ((s.xoff + (if s.xsize = f.w then 0 else if cubic then 1 else 0) + f.w / 2) % f.w - f.w / 2) / rlonresF f
+  else 0
+
+/-- `Geoid::CacheEast()` -/
+def cacheEast {C : Type} (f : File) (cubic : Bool) (s : St C) : F64 :=
+  if s.cache then
+    cacheWest f cubic s + F64.ofInt (s.xsize - (if s.xsize = f.w then 0 else 1 + 2 * (if cubic then 1 else 0))) / rlonresF f
+  else 0
+
+/-- `Geoid::CacheNorth()` -/
+def cacheNorth {C : Type} (f : File) (cubic : Bool) (s : St C) : F64 :=
+  if s.cache then F64.ofInt Gen.MathC.qd - F64.ofInt (s.yoff + (if cubic then 1 else 0)) / rlatresF f else 0
+
+/-- `Geoid::CacheSouth()` -/
+def cacheSouth {C : Type} (f : File) (cubic : Bool) (s : St C) : F64 :=
+  if s.cache then F64.ofInt Gen.MathC.qd - F64.ofInt (s.yoff + s.ysize - 1 - (if cubic then 1 else 0)) / rlatresF f else 0
+
+/-- `Geoid::ConvertHeight(lat, lon, h, d) = h + real(d) * height(lat, lon)`, `d = ±1` -/
+def convertHeight (h : F64) (d : Int) (N : F64) : F64 := h + F64.ofInt d * N
+
 end GeoVerif.Geoid
